@@ -101,13 +101,14 @@ class G:
 
     # ---- operators
     def conv(self, x, oc, k=3, stride=1, padding=PAD_SAME, act=ACT_NONE, dil=1, per_channel=True, oscale=None, ozp=None,
-             kw=None, stride_w=None, wdist=None, bias=True, wzp=None, bias64=False, share_w=None, share_b=None):
+             kw=None, stride_w=None, wdist=None, bias=True, wzp=None, bias64=False, share_w=None, share_b=None, dil_w=None):
         r = self.rng
         X = self.T(x)
         _, h, w, ic = X.shape
         kh, kw = k, (kw or k)
         sh, sw = stride, (stride_w or stride)
-        oh, ow = self.out_hw(h, w, kh, kw, sh, sw, dil, dil, padding)
+        dil_w = dil_w or dil
+        oh, ow = self.out_hw(h, w, kh, kw, sh, sw, dil, dil_w, padding)
         assert oh > 0 and ow > 0
         nm = self.name("conv")
         wd = "uint8" if X.dtype.name == "uint8" else "int8"
@@ -140,7 +141,7 @@ class G:
         out = self.act(nm + "_o", (1, oh, ow, oc), oscale, ozp, dtype=X.dtype.name)
         self.last_conv = (W.name, ins[2] if len(ins) > 2 else None)
         self.net.add_o(BO.CONV_2D, ins, [out.name], "Conv2DOptions",
-                       dict(padding=padding, stride_w=sw, stride_h=sh, dilation_w_factor=dil, dilation_h_factor=dil, fused_activation_function=act), 3)
+                       dict(padding=padding, stride_w=sw, stride_h=sh, dilation_w_factor=dil_w, dilation_h_factor=dil, fused_activation_function=act), 3)
         self.kinds.append("conv")
         return out.name
 
@@ -462,7 +463,10 @@ def _rand_exact_op(g, x, allow_fc=False, big=False):
         pad = int(r.choice([PAD_SAME, PAD_VALID]))
         dil = int(r.choice([1, 1, 1, 2])) if (s == 1 and (k - 1) * 2 + 1 <= min(h, w)) else 1
         oc = int(r.choice([4, 8, 12, 16, 24, 32, 7, 19] + ([48, 64, 96] if big else [])))
-        return g.conv(x, oc, k, s, pad, act, dil, per_channel=bool(r.integers(0, 4)))
+        dil_w = dil
+        if s == 1 and r.integers(0, 6) == 0 and (k - 1) * 2 + 1 <= min(h, w):
+            dil, dil_w = (2, 1) if r.integers(0, 2) else (1, 2)
+        return g.conv(x, oc, k, s, pad, act, dil, per_channel=bool(r.integers(0, 4)), dil_w=dil_w)
     if choice == "tconv":
         s = int(r.choice([1, 2, 2]))
         k = int(r.choice([1, 2, 3, 3, 4]))
@@ -528,6 +532,8 @@ def fam_exact_chain(seed, big=False, dtype=None):
     h = int(r.choice([4, 7, 8, 12, 16, 24] + ([32, 48] if big else [])))
     w = int(r.choice([4, 5, 8, 12, 16, 24] + ([32, 48] if big else [])))
     c = int(r.choice([1, 3, 4, 8, 16, 17, 32]))
+    if not big and r.integers(0, 10) == 0:
+        h, w, c = 1, 1, int(r.choice([8, 16, 24, 40]))  # 1x1 spatial: 1x1 convolutions become fully-connected operations
     x = g.input([1, h, w, c])
     n = int(r.integers(2, 7 if not big else 10))
     for _ in range(n):
@@ -613,10 +619,12 @@ def fam_approx_tail(seed, tail=None):
         if ac and (h == 1 or w == 1):
             ac, oh, ow = False, h * f, w * f
         x = g.resize(x, tail if tail == "resize_bilinear" else "resize_nearest", oh, ow, ac, hp)
-    elif tail in ("logistic", "tanh", "hard_swish"):
+    elif tail in ("logistic", "tanh", "hard_swish", "leaky_relu"):
+        if r.integers(0, 2):
+            # the producer carries its own fused clamp: the table activation must be applied on top of it, not instead of it
+            x = g.conv(x, int(r.choice([4, 8, 16])), int(r.choice([1, 3])) if min(h, w) >= 3 else 1, 1, PAD_SAME, int(r.choice([ACT_RELU, ACT_RELU6, ACT_RELU_N1_1])),
+                       oscale=float(r.choice([0.05, 0.1, 0.02])))
         x = g.unary(tail, x)
-    elif tail == "leaky_relu":
-        x = g.unary("leaky_relu", x)
     elif tail == "mean":
         x = g.mean(x, (1, 2), bool(r.integers(0, 2)))
     elif tail == "softmax":
@@ -649,7 +657,10 @@ def fam_stripe_stress(seed):
         elif t == 1 and min(hh, ww) >= 3:
             x = g.pool(x, "maxpool", min(3, k + 1), min(s, 2), pad)
         else:
-            x = g.conv(x, int(r.choice([8, 16, 32])), k, s, pad, int(r.choice([0, 1, 3])), dil)
+            dw_ = dil
+            if s == 1 and r.integers(0, 3) == 0 and (k - 1) * 2 + 1 <= min(hh, ww):
+                dil, dw_ = (2, 1) if r.integers(0, 2) else (1, 2)  # different dilation along height and width
+            x = g.conv(x, int(r.choice([8, 16, 32])), k, s, pad, int(r.choice([0, 1, 3])), dil, dil_w=dw_)
     return g.finish([x], "stripe-stress", "exact")
 
 
@@ -660,7 +671,7 @@ def fam_buffer_stress(seed):
     c = int(r.choice([32, 64, 128]))
     x = g.input([1, h, w, c])
     for _ in range(int(r.integers(2, 5))):
-        oc = int(r.choice([64, 128, 192, 256, 320]))
+        oc = int(r.choice([64, 128, 192, 256, 320, 72, 104, 136, 200, 312]))
         k = int(r.choice([1, 1, 3]))
         x = g.conv(x, oc, k, 1, PAD_SAME, int(r.choice([0, 1])))
     if r.integers(0, 2):
